@@ -10,13 +10,17 @@ except ImportError:
 from obl.c02_build import build_table_obls
 OBLIGATIONS += build_table_obls("c")
 
+# e: env layer: short writes, EINTR and errno propagation of the real env_unix_impl.h (write/read/pread loops, wfile, rfile)
+from obl.envunix_common import wfile_obls, rwmisc_obls
+OBLIGATIONS += [o for o in wfile_obls("e")] + [o for o in rwmisc_obls("e")]
+
 META = {
     "level": "model_checking",
     "level_text": "Bounded model checking (CBMC) of the real db_impl.c write, flush and garbage-collection paths with every env/log call below them returning a symbolic error: a failed log append or sync is returned to the writer, inserts nothing and latches the background error so that every later write is refused (the defect F1 was found and repaired here); a failed table build / MANIFEST apply latches the error and leaves the immutable memtable and its log in place; nothing is deleted after a latched error.",
     "level_note": "Trusted: CBMC semantics of the goto-cc translation; stubs of log writer, env, version set and memtable listed in the evidence; the environment model of other threads (interference only while the mutex is released). Fault sites are the calls of the units encoded here (one API step from an arbitrary state), not whole histories; process-level symptoms (crash/hang) beyond CBMC's memory-safety checks and mmap faults are outside.",
     "bounds": ["one ldb_write / one memtable flush / one GC pass from an arbitrary state; each env or log call may fail with IOERR/ENOSPC",
                "<=3 concurrent writers modelled as interference, <=2 waits, <=1 memtable switch"],
-    "outside": ["fault sequences across many API calls (covered only through the latched-error invariant)", "read-path faults (pread/mmap)", "env_unix_impl.h short-write handling (C02.f)"],
+    "outside": ["fault sequences across many API calls (covered only through the latched-error invariant)", "read-path faults (pread/mmap)", "kernel/disk behaviour below write(2)/fsync(2)"],
     "models": ["harness/dbimpl/world.h", "harness/dbimpl/write.c stubs", "flush/gc stubs"],
     "design_ref": "DESIGN.md section 6 C12, section 8 F1",
 }
